@@ -228,6 +228,42 @@ func existsPath(q pathQuery) (ssa.Instruction, bool) {
 		only := -1
 		if pred != nil && len(b.Instrs) > 0 {
 			if ifi, ok := b.Instrs[len(b.Instrs)-1].(*ssa.If); ok {
+				// `err != nil` / `err == nil` on an error merged in this block: decided by the edge we came in on
+				if bo, ok := ifi.Cond.(*ssa.BinOp); ok && (bo.Op == token.NEQ || bo.Op == token.EQL) && (isNilConst(bo.X) || isNilConst(bo.Y)) {
+					v := bo.X
+					if isNilConst(v) {
+						v = bo.Y
+					}
+					if ph, ok := v.(*ssa.Phi); ok && ph.Block() == b && isErrorType(ph.Type()) {
+						for pi, p := range b.Preds {
+							if p != pred {
+								continue
+							}
+							nonNil := -1
+							switch e := ph.Edges[pi].(type) {
+							case *ssa.Const:
+								if e.Value == nil {
+									nonNil = 0
+								}
+							case *ssa.Call:
+								n := calleeName(e)
+								if strings.HasSuffix(n, ".NewParseError") || strings.HasSuffix(n, ".NewRangeParseError") || n == "fmt.Errorf" || n == "errors.New" {
+									nonNil = 1
+								}
+							case *ssa.MakeInterface:
+								nonNil = 1
+							}
+							if nonNil >= 0 {
+								isNeq := bo.Op == token.NEQ
+								if (nonNil == 1) == isNeq {
+									only = 0
+								} else {
+									only = 1
+								}
+							}
+						}
+					}
+				}
 				if ph, ok := ifi.Cond.(*ssa.Phi); ok && ph.Block() == b {
 					for pi, p := range b.Preds {
 						if p == pred {
